@@ -960,9 +960,12 @@ def check_C06(run):
                              ("kill_inside_rmtree", ("rmtree", "_rmtree_safe_fd"))):
                 if any(p_ in w for p_ in pat):
                     reach[key] = reach.get(key, 0) + 1
+        if rec.get("mode") == "signal" and rec.get("fired"):
+            facts["nontrivial"].append("signal@%s" % rec["where"])
+            reach["signals_enumerated"] = reach.get("signals_enumerated", 0) + 1
         for sig, det in rec["violations"]:
-            V.append(Violation("C06", sig + " [kill in %s]" % rec["op"], dict(det, k=rec["k"], where=rec["where"]),
-                               rec["step"]))
+            V.append(Violation("C06", sig + " [%s in %s]" % ("signal" if rec.get("mode") == "signal" else "kill", rec["op"]),
+                               dict(det, k=rec["k"], where=rec["where"]), rec["step"]))
     if getattr(run, "enum_info", None):
         facts["enum_info"] = run.enum_info
     return V, facts
